@@ -1,293 +1,34 @@
-(* Generated by translators/t5_cfg.py -- do not edit. *)
-(** Property C18: every function of the hand-written objects that C code can call obeys the
-    System V x86-64 calling convention on every terminating path (model: X86/Frame.v,
-    trusted base: X86/C18_NOTES.md). *)
-From Coq Require Import ZArith List Bool String.
-From IMB Require Import X86.Frame X86.FrameCheck X86.FrameSound Gen.GenCfgAll.
-From IMB Require Props.Properties_C18_avx2_t1_aes128_cbc_dec_by8_avx.
-From IMB Require Props.Properties_C18_avx2_t1_aes128_cbc_enc_x8_avx.
-From IMB Require Props.Properties_C18_avx2_t1_aes128_cbc_mac_x8_avx.
-From IMB Require Props.Properties_C18_avx2_t1_aes128_cbcs_1_9_dec_by8_avx.
-From IMB Require Props.Properties_C18_avx2_t1_aes128_cbcs_1_9_enc_x8_avx.
-From IMB Require Props.Properties_C18_avx2_t1_aes128_cntr_by8_avx.
-From IMB Require Props.Properties_C18_avx2_t1_aes128_cntr_ccm_by8_avx.
-From IMB Require Props.Properties_C18_avx2_t1_aes128_ecb_by8_avx.
-From IMB Require Props.Properties_C18_avx2_t1_aes128_gcm_by8_avx2.
-From IMB Require Props.Properties_C18_avx2_t1_aes128_xcbc_mac_x8_avx.
-From IMB Require Props.Properties_C18_avx2_t1_aes192_cbc_dec_by8_avx.
-From IMB Require Props.Properties_C18_avx2_t1_aes192_cbc_enc_x8_avx.
-From IMB Require Props.Properties_C18_avx2_t1_aes192_cntr_by8_avx.
-From IMB Require Props.Properties_C18_avx2_t1_aes192_ecb_by8_avx.
-From IMB Require Props.Properties_C18_avx2_t1_aes192_gcm_by8_avx2.
-From IMB Require Props.Properties_C18_avx2_t1_aes256_cbc_dec_by8_avx.
-From IMB Require Props.Properties_C18_avx2_t1_aes256_cbc_enc_x8_avx.
-From IMB Require Props.Properties_C18_avx2_t1_aes256_cbc_mac_x8_avx.
-From IMB Require Props.Properties_C18_avx2_t1_aes256_cntr_by8_avx.
-From IMB Require Props.Properties_C18_avx2_t1_aes256_cntr_ccm_by8_avx.
-From IMB Require Props.Properties_C18_avx2_t1_aes256_ecb_by8_avx.
-From IMB Require Props.Properties_C18_avx2_t1_aes256_gcm_by8_avx2.
-From IMB Require Props.Properties_C18_avx2_t1_aes_cfb_avx.
-From IMB Require Props.Properties_C18_avx2_t1_aes_ecb_quic_x8_avx.
-From IMB Require Props.Properties_C18_avx2_t1_aes_gcm_by8_avx2.
-From IMB Require Props.Properties_C18_avx2_t1_chacha20_avx2.
-From IMB Require Props.Properties_C18_avx2_t1_crc16_x25_avx.
-From IMB Require Props.Properties_C18_avx2_t1_crc32_by8_avx.
-From IMB Require Props.Properties_C18_avx2_t1_crc32_fp_avx.
-From IMB Require Props.Properties_C18_avx2_t1_crc32_iuup_avx.
-From IMB Require Props.Properties_C18_avx2_t1_crc32_lte_avx.
-From IMB Require Props.Properties_C18_avx2_t1_crc32_refl_by8_avx.
-From IMB Require Props.Properties_C18_avx2_t1_crc32_sctp_avx.
-From IMB Require Props.Properties_C18_avx2_t1_crc32_wimax_avx.
-From IMB Require Props.Properties_C18_avx2_t1_ethernet_fcs_avx.
-From IMB Require Props.Properties_C18_avx2_t1_ghash_by8_avx2.
-From IMB Require Props.Properties_C18_avx2_t1_mb_mgr_aes128_cbc_enc_flush_avx.
-From IMB Require Props.Properties_C18_avx2_t1_mb_mgr_aes128_cbc_enc_submit_avx.
-From IMB Require Props.Properties_C18_avx2_t1_mb_mgr_aes128_cbcs_1_9_flush_avx.
-From IMB Require Props.Properties_C18_avx2_t1_mb_mgr_aes128_cbcs_1_9_submit_avx.
-From IMB Require Props.Properties_C18_avx2_t1_mb_mgr_aes128_ccm_auth_submit_flush_x8_avx.
-From IMB Require Props.Properties_C18_avx2_t1_mb_mgr_aes128_cmac_submit_flush_x8_avx.
-From IMB Require Props.Properties_C18_avx2_t1_mb_mgr_aes128_xcbc_flush_x8_avx.
-From IMB Require Props.Properties_C18_avx2_t1_mb_mgr_aes128_xcbc_submit_x8_avx.
-From IMB Require Props.Properties_C18_avx2_t1_mb_mgr_aes192_cbc_enc_flush_avx.
-From IMB Require Props.Properties_C18_avx2_t1_mb_mgr_aes192_cbc_enc_submit_avx.
-From IMB Require Props.Properties_C18_avx2_t1_mb_mgr_aes256_cbc_enc_flush_avx.
-From IMB Require Props.Properties_C18_avx2_t1_mb_mgr_aes256_cbc_enc_submit_avx.
-From IMB Require Props.Properties_C18_avx2_t1_mb_mgr_aes256_ccm_auth_submit_flush_x8_avx.
-From IMB Require Props.Properties_C18_avx2_t1_mb_mgr_aes256_cmac_submit_flush_x8_avx.
-From IMB Require Props.Properties_C18_avx2_t1_mb_mgr_hmac_md5_flush_avx2.
-From IMB Require Props.Properties_C18_avx2_t1_mb_mgr_hmac_md5_submit_avx2.
-From IMB Require Props.Properties_C18_avx2_t1_mb_mgr_hmac_sha1_flush_avx2.
-From IMB Require Props.Properties_C18_avx2_t1_mb_mgr_hmac_sha1_submit_avx2.
-From IMB Require Props.Properties_C18_avx2_t1_mb_mgr_hmac_sha224_flush_avx2.
-From IMB Require Props.Properties_C18_avx2_t1_mb_mgr_hmac_sha224_submit_avx2.
-From IMB Require Props.Properties_C18_avx2_t1_mb_mgr_hmac_sha256_flush_avx2.
-From IMB Require Props.Properties_C18_avx2_t1_mb_mgr_hmac_sha256_submit_avx2.
-From IMB Require Props.Properties_C18_avx2_t1_mb_mgr_hmac_sha384_flush_avx2.
-From IMB Require Props.Properties_C18_avx2_t1_mb_mgr_hmac_sha384_submit_avx2.
-From IMB Require Props.Properties_C18_avx2_t1_mb_mgr_hmac_sha512_flush_avx2.
-From IMB Require Props.Properties_C18_avx2_t1_mb_mgr_hmac_sha512_submit_avx2.
-From IMB Require Props.Properties_C18_avx2_t1_mb_mgr_zuc_submit_flush_avx2.
-From IMB Require Props.Properties_C18_avx2_t1_md5_x8x2_avx2.
-From IMB Require Props.Properties_C18_avx2_t1_memcpy_avx.
-From IMB Require Props.Properties_C18_avx2_t1_pon_by8_avx.
-From IMB Require Props.Properties_C18_avx2_t1_sha1_x8_avx2.
-From IMB Require Props.Properties_C18_avx2_t1_sha256_oct_avx2.
-From IMB Require Props.Properties_C18_avx2_t1_sha512_x4_avx2.
-From IMB Require Props.Properties_C18_avx2_t1_snow3g_uia2_by4_avx.
-From IMB Require Props.Properties_C18_avx2_t1_snow_v_avx.
-From IMB Require Props.Properties_C18_avx2_t1_zuc_x8_avx2.
-From IMB Require Props.Properties_C18_avx2_t2_aes128_cntr_vaes_avx2.
-From IMB Require Props.Properties_C18_avx2_t2_aes128_ecb_vaes_avx2.
-From IMB Require Props.Properties_C18_avx2_t2_aes128_gcm_vaes_avx2.
-From IMB Require Props.Properties_C18_avx2_t2_aes192_cntr_vaes_avx2.
-From IMB Require Props.Properties_C18_avx2_t2_aes192_ecb_vaes_avx2.
-From IMB Require Props.Properties_C18_avx2_t2_aes192_gcm_vaes_avx2.
-From IMB Require Props.Properties_C18_avx2_t2_aes256_cntr_vaes_avx2.
-From IMB Require Props.Properties_C18_avx2_t2_aes256_ecb_vaes_avx2.
-From IMB Require Props.Properties_C18_avx2_t2_aes256_gcm_vaes_avx2.
-From IMB Require Props.Properties_C18_avx2_t2_aes_cbc_dec_by16_vaes_avx2.
-From IMB Require Props.Properties_C18_avx2_t2_aes_cfb_dec_by16_vaes_avx2.
-From IMB Require Props.Properties_C18_avx2_t2_aes_gcm_vaes_avx2.
-From IMB Require Props.Properties_C18_avx2_t2_ghash_vaes_avx2.
-From IMB Require Props.Properties_C18_avx2_t2_mb_mgr_zuc_submit_flush_gfni_avx2.
-From IMB Require Props.Properties_C18_avx2_t2_zuc_x8_gfni_avx2.
-From IMB Require Props.Properties_C18_avx2_t3_poly_fma_avx2.
-From IMB Require Props.Properties_C18_avx512_t1_aes_docsis_dec_avx512.
-From IMB Require Props.Properties_C18_avx512_t1_aes_docsis_enc_avx512.
-From IMB Require Props.Properties_C18_avx512_t1_chacha20_avx512.
-From IMB Require Props.Properties_C18_avx512_t1_des_common_avx512.
-From IMB Require Props.Properties_C18_avx512_t1_des_x16_avx512.
-From IMB Require Props.Properties_C18_avx512_t1_mb_mgr_des_avx512.
-From IMB Require Props.Properties_C18_avx512_t1_mb_mgr_hmac_sha1_flush_avx512.
-From IMB Require Props.Properties_C18_avx512_t1_mb_mgr_hmac_sha1_submit_avx512.
-From IMB Require Props.Properties_C18_avx512_t1_mb_mgr_hmac_sha224_flush_avx512.
-From IMB Require Props.Properties_C18_avx512_t1_mb_mgr_hmac_sha224_submit_avx512.
-From IMB Require Props.Properties_C18_avx512_t1_mb_mgr_hmac_sha256_flush_avx512.
-From IMB Require Props.Properties_C18_avx512_t1_mb_mgr_hmac_sha256_submit_avx512.
-From IMB Require Props.Properties_C18_avx512_t1_mb_mgr_hmac_sha384_flush_avx512.
-From IMB Require Props.Properties_C18_avx512_t1_mb_mgr_hmac_sha384_submit_avx512.
-From IMB Require Props.Properties_C18_avx512_t1_mb_mgr_hmac_sha512_flush_avx512.
-From IMB Require Props.Properties_C18_avx512_t1_mb_mgr_hmac_sha512_submit_avx512.
-From IMB Require Props.Properties_C18_avx512_t1_mb_mgr_zuc_submit_flush_avx512.
-From IMB Require Props.Properties_C18_avx512_t1_poly_avx512.
-From IMB Require Props.Properties_C18_avx512_t1_sha1_x16_avx512.
-From IMB Require Props.Properties_C18_avx512_t1_sha256_x16_avx512.
-From IMB Require Props.Properties_C18_avx512_t1_sha512_x8_avx512.
-From IMB Require Props.Properties_C18_avx512_t1_zuc_x16_avx512.
-From IMB Require Props.Properties_C18_avx512_t2_aes128_gcm_api_vaes_avx512.
-From IMB Require Props.Properties_C18_avx512_t2_aes128_gcm_sgl_api_vaes_avx512.
-From IMB Require Props.Properties_C18_avx512_t2_aes192_gcm_api_vaes_avx512.
-From IMB Require Props.Properties_C18_avx512_t2_aes192_gcm_sgl_api_vaes_avx512.
-From IMB Require Props.Properties_C18_avx512_t2_aes256_gcm_api_vaes_avx512.
-From IMB Require Props.Properties_C18_avx512_t2_aes256_gcm_sgl_api_vaes_avx512.
-From IMB Require Props.Properties_C18_avx512_t2_aes_cbc_dec_by16_vaes_avx512.
-From IMB Require Props.Properties_C18_avx512_t2_aes_cbc_enc_vaes_avx512.
-From IMB Require Props.Properties_C18_avx512_t2_aes_cbcs_dec_by16_vaes_avx512.
-From IMB Require Props.Properties_C18_avx512_t2_aes_cbcs_enc_vaes_avx512.
-From IMB Require Props.Properties_C18_avx512_t2_aes_cfb_dec_by16_vaes_avx512.
-From IMB Require Props.Properties_C18_avx512_t2_aes_cfb_enc_vaes_avx512.
-From IMB Require Props.Properties_C18_avx512_t2_aes_cntr_api_by16_vaes_avx512.
-From IMB Require Props.Properties_C18_avx512_t2_aes_cntr_bit_api_by16_vaes_avx512.
-From IMB Require Props.Properties_C18_avx512_t2_aes_cntr_ccm_api_by16_vaes_avx512.
-From IMB Require Props.Properties_C18_avx512_t2_aes_cntr_pon_api_by16_vaes_avx512.
-From IMB Require Props.Properties_C18_avx512_t2_aes_docsis_dec_vaes_avx512.
-From IMB Require Props.Properties_C18_avx512_t2_aes_docsis_enc_vaes_avx512.
-From IMB Require Props.Properties_C18_avx512_t2_aes_ecb_quic_vaes_avx512.
-From IMB Require Props.Properties_C18_avx512_t2_aes_ecb_vaes_avx512.
-From IMB Require Props.Properties_C18_avx512_t2_crc16_x25_avx512.
-From IMB Require Props.Properties_C18_avx512_t2_crc32_by16_vclmul_avx512.
-From IMB Require Props.Properties_C18_avx512_t2_crc32_fp_avx512.
-From IMB Require Props.Properties_C18_avx512_t2_crc32_iuup_avx512.
-From IMB Require Props.Properties_C18_avx512_t2_crc32_lte_avx512.
-From IMB Require Props.Properties_C18_avx512_t2_crc32_refl_by16_vclmul_avx512.
-From IMB Require Props.Properties_C18_avx512_t2_crc32_sctp_avx512.
-From IMB Require Props.Properties_C18_avx512_t2_crc32_wimax_avx512.
-From IMB Require Props.Properties_C18_avx512_t2_ethernet_fcs_avx512.
-From IMB Require Props.Properties_C18_avx512_t2_ghash_api_vaes_avx512.
-From IMB Require Props.Properties_C18_avx512_t2_gmac_api_vaes_avx512.
-From IMB Require Props.Properties_C18_avx512_t2_mb_mgr_aes128_cbc_enc_flush_avx512.
-From IMB Require Props.Properties_C18_avx512_t2_mb_mgr_aes128_cbc_enc_submit_avx512.
-From IMB Require Props.Properties_C18_avx512_t2_mb_mgr_aes128_cbcs_1_9_flush_avx512.
-From IMB Require Props.Properties_C18_avx512_t2_mb_mgr_aes128_cbcs_1_9_submit_avx512.
-From IMB Require Props.Properties_C18_avx512_t2_mb_mgr_aes128_ccm_auth_submit_flush_x16_vaes_avx512.
-From IMB Require Props.Properties_C18_avx512_t2_mb_mgr_aes128_cfb_enc_flush_vaes_avx512.
-From IMB Require Props.Properties_C18_avx512_t2_mb_mgr_aes128_cfb_enc_submit_vaes_avx512.
-From IMB Require Props.Properties_C18_avx512_t2_mb_mgr_aes128_cmac_submit_flush_x16_vaes_avx512.
-From IMB Require Props.Properties_C18_avx512_t2_mb_mgr_aes128_xcbc_submit_flush_x16_vaes_avx512.
-From IMB Require Props.Properties_C18_avx512_t2_mb_mgr_aes192_cbc_enc_flush_avx512.
-From IMB Require Props.Properties_C18_avx512_t2_mb_mgr_aes192_cbc_enc_submit_avx512.
-From IMB Require Props.Properties_C18_avx512_t2_mb_mgr_aes192_cfb_enc_flush_vaes_avx512.
-From IMB Require Props.Properties_C18_avx512_t2_mb_mgr_aes192_cfb_enc_submit_vaes_avx512.
-From IMB Require Props.Properties_C18_avx512_t2_mb_mgr_aes256_cbc_enc_flush_avx512.
-From IMB Require Props.Properties_C18_avx512_t2_mb_mgr_aes256_cbc_enc_submit_avx512.
-From IMB Require Props.Properties_C18_avx512_t2_mb_mgr_aes256_ccm_auth_submit_flush_x16_vaes_avx512.
-From IMB Require Props.Properties_C18_avx512_t2_mb_mgr_aes256_cfb_enc_flush_vaes_avx512.
-From IMB Require Props.Properties_C18_avx512_t2_mb_mgr_aes256_cfb_enc_submit_vaes_avx512.
-From IMB Require Props.Properties_C18_avx512_t2_mb_mgr_aes256_cmac_submit_flush_x16_vaes_avx512.
-From IMB Require Props.Properties_C18_avx512_t2_mb_mgr_snow3g_uea2_submit_flush_vaes_avx512.
-From IMB Require Props.Properties_C18_avx512_t2_mb_mgr_snow3g_uia2_submit_flush_vaes_avx512.
-From IMB Require Props.Properties_C18_avx512_t2_mb_mgr_zuc_submit_flush_gfni_avx512.
-From IMB Require Props.Properties_C18_avx512_t2_poly_fma_avx512.
-From IMB Require Props.Properties_C18_avx512_t2_pon_vaes_avx512.
-From IMB Require Props.Properties_C18_avx512_t2_snow3g_uia2_by32_vaes_avx512.
-From IMB Require Props.Properties_C18_avx512_t2_zuc_x16_vaes_avx512.
-From IMB Require Props.Properties_C18_sse_t1_aes128_cbc_dec_by8_sse.
-From IMB Require Props.Properties_C18_sse_t1_aes128_cbc_enc_x8_sse.
-From IMB Require Props.Properties_C18_sse_t1_aes128_cbc_mac_x8_sse.
-From IMB Require Props.Properties_C18_sse_t1_aes128_cbcs_1_9_dec_by4_sse.
-From IMB Require Props.Properties_C18_sse_t1_aes128_cbcs_1_9_enc_x4_sse.
-From IMB Require Props.Properties_C18_sse_t1_aes128_cntr_by8_sse.
-From IMB Require Props.Properties_C18_sse_t1_aes128_cntr_ccm_by8_sse.
-From IMB Require Props.Properties_C18_sse_t1_aes128_ecb_by8_sse.
-From IMB Require Props.Properties_C18_sse_t1_aes128_xcbc_mac_x4_sse.
-From IMB Require Props.Properties_C18_sse_t1_aes192_cbc_dec_by8_sse.
-From IMB Require Props.Properties_C18_sse_t1_aes192_cbc_enc_x8_sse.
-From IMB Require Props.Properties_C18_sse_t1_aes192_cntr_by8_sse.
-From IMB Require Props.Properties_C18_sse_t1_aes192_ecb_by8_sse.
-From IMB Require Props.Properties_C18_sse_t1_aes256_cbc_dec_by8_sse.
-From IMB Require Props.Properties_C18_sse_t1_aes256_cbc_enc_x8_sse.
-From IMB Require Props.Properties_C18_sse_t1_aes256_cbc_mac_x8_sse.
-From IMB Require Props.Properties_C18_sse_t1_aes256_cntr_by8_sse.
-From IMB Require Props.Properties_C18_sse_t1_aes256_cntr_ccm_by8_sse.
-From IMB Require Props.Properties_C18_sse_t1_aes256_ecb_by8_sse.
-From IMB Require Props.Properties_C18_sse_t1_aes_cfb_enc_dec_x1_sse.
-From IMB Require Props.Properties_C18_sse_t1_aes_cfb_sse.
-From IMB Require Props.Properties_C18_sse_t1_aes_ecb_quic_x8_sse.
-From IMB Require Props.Properties_C18_sse_t1_chacha20_sse.
-From IMB Require Props.Properties_C18_sse_t1_crc16_x25_sse.
-From IMB Require Props.Properties_C18_sse_t1_crc32_by8_sse.
-From IMB Require Props.Properties_C18_sse_t1_crc32_fp_sse.
-From IMB Require Props.Properties_C18_sse_t1_crc32_iuup_sse.
-From IMB Require Props.Properties_C18_sse_t1_crc32_lte_sse.
-From IMB Require Props.Properties_C18_sse_t1_crc32_refl_by8_sse.
-From IMB Require Props.Properties_C18_sse_t1_crc32_sctp_sse.
-From IMB Require Props.Properties_C18_sse_t1_crc32_wimax_sse.
-From IMB Require Props.Properties_C18_sse_t1_ethernet_fcs_sse.
-From IMB Require Props.Properties_C18_sse_t1_gcm128_api_by8_sse.
-From IMB Require Props.Properties_C18_sse_t1_gcm128_gmac_api_by8_sse.
-From IMB Require Props.Properties_C18_sse_t1_gcm128_sgl_api_by8_sse.
-From IMB Require Props.Properties_C18_sse_t1_gcm192_api_by8_sse.
-From IMB Require Props.Properties_C18_sse_t1_gcm192_gmac_api_by8_sse.
-From IMB Require Props.Properties_C18_sse_t1_gcm192_sgl_api_by8_sse.
-From IMB Require Props.Properties_C18_sse_t1_gcm256_api_by8_sse.
-From IMB Require Props.Properties_C18_sse_t1_gcm256_gmac_api_by8_sse.
-From IMB Require Props.Properties_C18_sse_t1_gcm256_sgl_api_by8_sse.
-From IMB Require Props.Properties_C18_sse_t1_mb_mgr_aes128_cbc_enc_flush_x8_sse.
-From IMB Require Props.Properties_C18_sse_t1_mb_mgr_aes128_cbc_enc_submit_x8_sse.
-From IMB Require Props.Properties_C18_sse_t1_mb_mgr_aes128_cbcs_1_9_flush_sse.
-From IMB Require Props.Properties_C18_sse_t1_mb_mgr_aes128_cbcs_1_9_submit_sse.
-From IMB Require Props.Properties_C18_sse_t1_mb_mgr_aes128_xcbc_flush_x4_sse.
-From IMB Require Props.Properties_C18_sse_t1_mb_mgr_aes128_xcbc_submit_x4_sse.
-From IMB Require Props.Properties_C18_sse_t1_mb_mgr_aes192_cbc_enc_flush_x8_sse.
-From IMB Require Props.Properties_C18_sse_t1_mb_mgr_aes192_cbc_enc_submit_x8_sse.
-From IMB Require Props.Properties_C18_sse_t1_mb_mgr_aes256_cbc_enc_flush_x8_sse.
-From IMB Require Props.Properties_C18_sse_t1_mb_mgr_aes256_cbc_enc_submit_x8_sse.
-From IMB Require Props.Properties_C18_sse_t1_mb_mgr_aes_ccm_auth_submit_flush_x8_sse.
-From IMB Require Props.Properties_C18_sse_t1_mb_mgr_aes_cmac_submit_flush_x8_sse.
-From IMB Require Props.Properties_C18_sse_t1_mb_mgr_hmac_md5_flush_sse.
-From IMB Require Props.Properties_C18_sse_t1_mb_mgr_hmac_md5_submit_sse.
-From IMB Require Props.Properties_C18_sse_t1_mb_mgr_hmac_sha1_flush_sse.
-From IMB Require Props.Properties_C18_sse_t1_mb_mgr_hmac_sha1_submit_sse.
-From IMB Require Props.Properties_C18_sse_t1_mb_mgr_hmac_sha224_flush_sse.
-From IMB Require Props.Properties_C18_sse_t1_mb_mgr_hmac_sha224_submit_sse.
-From IMB Require Props.Properties_C18_sse_t1_mb_mgr_hmac_sha256_flush_sse.
-From IMB Require Props.Properties_C18_sse_t1_mb_mgr_hmac_sha256_submit_sse.
-From IMB Require Props.Properties_C18_sse_t1_mb_mgr_hmac_sha384_flush_sse.
-From IMB Require Props.Properties_C18_sse_t1_mb_mgr_hmac_sha384_submit_sse.
-From IMB Require Props.Properties_C18_sse_t1_mb_mgr_hmac_sha512_flush_sse.
-From IMB Require Props.Properties_C18_sse_t1_mb_mgr_hmac_sha512_submit_sse.
-From IMB Require Props.Properties_C18_sse_t1_mb_mgr_snow3g_uea2_submit_flush_x4_sse.
-From IMB Require Props.Properties_C18_sse_t1_mb_mgr_snow3g_uia2_submit_flush_x4_sse.
-From IMB Require Props.Properties_C18_sse_t1_mb_mgr_zuc_submit_flush_sse.
-From IMB Require Props.Properties_C18_sse_t1_md5_x4x2_sse.
-From IMB Require Props.Properties_C18_sse_t1_memcpy_sse.
-From IMB Require Props.Properties_C18_sse_t1_pon_by8_sse.
-From IMB Require Props.Properties_C18_sse_t1_sha1_one_block_sse.
-From IMB Require Props.Properties_C18_sse_t1_sha1_x4_sse.
-From IMB Require Props.Properties_C18_sse_t1_sha224_one_block_sse.
-From IMB Require Props.Properties_C18_sse_t1_sha256_mult_sse.
-From IMB Require Props.Properties_C18_sse_t1_sha256_one_block_sse.
-From IMB Require Props.Properties_C18_sse_t1_sha384_one_block_sse.
-From IMB Require Props.Properties_C18_sse_t1_sha512_one_block_sse.
-From IMB Require Props.Properties_C18_sse_t1_sha512_x2_sse.
-From IMB Require Props.Properties_C18_sse_t1_sm3_base_hmac_sse.
-From IMB Require Props.Properties_C18_sse_t1_sm3_base_init_sse.
-From IMB Require Props.Properties_C18_sse_t1_sm3_base_msg_sse.
-From IMB Require Props.Properties_C18_sse_t1_sm3_base_one_block_sse.
-From IMB Require Props.Properties_C18_sse_t1_sm3_base_update_sse.
-From IMB Require Props.Properties_C18_sse_t1_sm4_sse.
-From IMB Require Props.Properties_C18_sse_t1_snow3g_uia2_by4_sse.
-From IMB Require Props.Properties_C18_sse_t1_snow_v_sse.
-From IMB Require Props.Properties_C18_sse_t1_zuc_x4_sse.
-From IMB Require Props.Properties_C18_sse_t2_mb_mgr_hmac_sha1_flush_ni_sse.
-From IMB Require Props.Properties_C18_sse_t2_mb_mgr_hmac_sha1_submit_ni_sse.
-From IMB Require Props.Properties_C18_sse_t2_mb_mgr_hmac_sha224_flush_ni_sse.
-From IMB Require Props.Properties_C18_sse_t2_mb_mgr_hmac_sha224_submit_ni_sse.
-From IMB Require Props.Properties_C18_sse_t2_mb_mgr_hmac_sha256_flush_ni_sse.
-From IMB Require Props.Properties_C18_sse_t2_mb_mgr_hmac_sha256_submit_ni_sse.
-From IMB Require Props.Properties_C18_sse_t2_sha1_ni_one_block_sse.
-From IMB Require Props.Properties_C18_sse_t2_sha1_ni_x1_sse.
-From IMB Require Props.Properties_C18_sse_t2_sha1_ni_x2_sse.
-From IMB Require Props.Properties_C18_sse_t2_sha256_ni_one_block_sse.
-From IMB Require Props.Properties_C18_sse_t2_sha256_ni_x1_sse.
-From IMB Require Props.Properties_C18_sse_t2_sha256_ni_x2_sse.
-From IMB Require Props.Properties_C18_sse_t3_mb_mgr_zuc_submit_flush_gfni_sse.
-From IMB Require Props.Properties_C18_sse_t3_zuc_x4_gfni_sse.
-From IMB Require Props.Properties_C18_x86_64_aes128_ecbenc_x3.
-From IMB Require Props.Properties_C18_x86_64_aes_cmac_subkey_gen.
-From IMB Require Props.Properties_C18_x86_64_aes_keyexp_128.
-From IMB Require Props.Properties_C18_x86_64_aes_keyexp_192.
-From IMB Require Props.Properties_C18_x86_64_aes_keyexp_256.
-From IMB Require Props.Properties_C18_x86_64_atomic.
-From IMB Require Props.Properties_C18_x86_64_clear_regs_mem_fns.
-From IMB Require Props.Properties_C18_x86_64_constant_lookup_fns.
-From IMB Require Props.Properties_C18_x86_64_mbcpuid.
-From IMB Require Props.Properties_C18_x86_64_poly1305.
-From IMB Require Props.Properties_C18_x86_64_save_xmms.
-From IMB Require Props.Properties_C18_x86_64_wireless_common.
-From IMB Require Props.Properties_C18_x86_64_zuc_common.
+(** * Property C18 -- calling convention of the hand-written (NASM) code
 
-(** the validator is sound (proved once, for every program) *)
+    "Every exported function and every manager entry point obeys the platform calling
+    convention (System V x86-64) on all paths: callee-saved general-purpose registers
+    (rbx, rbp, r12-r15) and the stack pointer are restored, the direction flag is clear and
+    MXCSR is unchanged on return, whatever algorithm, length or lane state the call encounters."
+
+    Shape of the proof (DESIGN.md section C18, coq/X86/C18_NOTES.md):
+
+      - X86/Frame.v        the frame machine (registers, stack words, DF, MXCSR; big-step [exec]);
+      - X86/FrameCheck.v   the executable certificate validator [check_fn] / [prog_ok];
+      - X86/FrameSound.v   its soundness, proved once for all programs;
+      - Gen/GenCfg_<obj>.v            CFG + certificate of every function of every NASM object,
+                                       regenerated from the rebuilt objects by translators/t5_cfg.py;
+      - Props/Properties_C18_<obj>.v  one [vm_compute] theorem per object:
+                                       [forallb fdef_ok all_functions_<obj> = true];
+      - Props/Properties_C18_All.v    (generated) glue: all objects validate, the summaries used at
+                                       call sites are consistent ([c18_link]), hence
+                                       [c18_calling_convention] for the whole library.
+
+    This file states the generic soundness theorem the per-object theorems are instances of. *)
+
+From Coq Require Import ZArith List Bool String.
+From IMB Require Import X86.Frame X86.FrameCheck X86.FrameSound.
+
+(** If the validator accepts program [P] then every complete activation (entry to [ret], DF
+    clear on entry as the ABI requires) of every function [d] of [P] satisfies [d]'s summary:
+    the promised registers hold their entry values, rsp = entry rsp + 8 (the return address was
+    popped, and it is the one the caller pushed), memory at and above the entry rsp -- the return
+    address and the caller's frame -- is unchanged, DF = 0, and MXCSR holds its entry value when
+    the summary says so. *)
 Theorem c18_frame_check_sound :
   forall P : list fdef, prog_ok P = true ->
   forall d, In d P -> forall c r, cdf c = false ->
@@ -296,308 +37,12 @@ Theorem c18_frame_check_sound :
 Proof. exact frame_check_sound. Qed.
 Print Assumptions c18_frame_check_sound.
 
-(** every function of every object validates (one vm_compute theorem per object) *)
-Theorem c18_all_checked : forallb fdef_ok all_defs = true.
-Proof.
-  unfold all_defs. rewrite !forallb_app.
-  rewrite Properties_C18_avx2_t1_aes128_cbc_dec_by8_avx.c18_avx2_t1_aes128_cbc_dec_by8_avx.
-  rewrite Properties_C18_avx2_t1_aes128_cbc_enc_x8_avx.c18_avx2_t1_aes128_cbc_enc_x8_avx.
-  rewrite Properties_C18_avx2_t1_aes128_cbc_mac_x8_avx.c18_avx2_t1_aes128_cbc_mac_x8_avx.
-  rewrite Properties_C18_avx2_t1_aes128_cbcs_1_9_dec_by8_avx.c18_avx2_t1_aes128_cbcs_1_9_dec_by8_avx.
-  rewrite Properties_C18_avx2_t1_aes128_cbcs_1_9_enc_x8_avx.c18_avx2_t1_aes128_cbcs_1_9_enc_x8_avx.
-  rewrite Properties_C18_avx2_t1_aes128_cntr_by8_avx.c18_avx2_t1_aes128_cntr_by8_avx.
-  rewrite Properties_C18_avx2_t1_aes128_cntr_ccm_by8_avx.c18_avx2_t1_aes128_cntr_ccm_by8_avx.
-  rewrite Properties_C18_avx2_t1_aes128_ecb_by8_avx.c18_avx2_t1_aes128_ecb_by8_avx.
-  rewrite Properties_C18_avx2_t1_aes128_gcm_by8_avx2.c18_avx2_t1_aes128_gcm_by8_avx2.
-  rewrite Properties_C18_avx2_t1_aes128_xcbc_mac_x8_avx.c18_avx2_t1_aes128_xcbc_mac_x8_avx.
-  rewrite Properties_C18_avx2_t1_aes192_cbc_dec_by8_avx.c18_avx2_t1_aes192_cbc_dec_by8_avx.
-  rewrite Properties_C18_avx2_t1_aes192_cbc_enc_x8_avx.c18_avx2_t1_aes192_cbc_enc_x8_avx.
-  rewrite Properties_C18_avx2_t1_aes192_cntr_by8_avx.c18_avx2_t1_aes192_cntr_by8_avx.
-  rewrite Properties_C18_avx2_t1_aes192_ecb_by8_avx.c18_avx2_t1_aes192_ecb_by8_avx.
-  rewrite Properties_C18_avx2_t1_aes192_gcm_by8_avx2.c18_avx2_t1_aes192_gcm_by8_avx2.
-  rewrite Properties_C18_avx2_t1_aes256_cbc_dec_by8_avx.c18_avx2_t1_aes256_cbc_dec_by8_avx.
-  rewrite Properties_C18_avx2_t1_aes256_cbc_enc_x8_avx.c18_avx2_t1_aes256_cbc_enc_x8_avx.
-  rewrite Properties_C18_avx2_t1_aes256_cbc_mac_x8_avx.c18_avx2_t1_aes256_cbc_mac_x8_avx.
-  rewrite Properties_C18_avx2_t1_aes256_cntr_by8_avx.c18_avx2_t1_aes256_cntr_by8_avx.
-  rewrite Properties_C18_avx2_t1_aes256_cntr_ccm_by8_avx.c18_avx2_t1_aes256_cntr_ccm_by8_avx.
-  rewrite Properties_C18_avx2_t1_aes256_ecb_by8_avx.c18_avx2_t1_aes256_ecb_by8_avx.
-  rewrite Properties_C18_avx2_t1_aes256_gcm_by8_avx2.c18_avx2_t1_aes256_gcm_by8_avx2.
-  rewrite Properties_C18_avx2_t1_aes_cfb_avx.c18_avx2_t1_aes_cfb_avx.
-  rewrite Properties_C18_avx2_t1_aes_ecb_quic_x8_avx.c18_avx2_t1_aes_ecb_quic_x8_avx.
-  rewrite Properties_C18_avx2_t1_aes_gcm_by8_avx2.c18_avx2_t1_aes_gcm_by8_avx2.
-  rewrite Properties_C18_avx2_t1_chacha20_avx2.c18_avx2_t1_chacha20_avx2.
-  rewrite Properties_C18_avx2_t1_crc16_x25_avx.c18_avx2_t1_crc16_x25_avx.
-  rewrite Properties_C18_avx2_t1_crc32_by8_avx.c18_avx2_t1_crc32_by8_avx.
-  rewrite Properties_C18_avx2_t1_crc32_fp_avx.c18_avx2_t1_crc32_fp_avx.
-  rewrite Properties_C18_avx2_t1_crc32_iuup_avx.c18_avx2_t1_crc32_iuup_avx.
-  rewrite Properties_C18_avx2_t1_crc32_lte_avx.c18_avx2_t1_crc32_lte_avx.
-  rewrite Properties_C18_avx2_t1_crc32_refl_by8_avx.c18_avx2_t1_crc32_refl_by8_avx.
-  rewrite Properties_C18_avx2_t1_crc32_sctp_avx.c18_avx2_t1_crc32_sctp_avx.
-  rewrite Properties_C18_avx2_t1_crc32_wimax_avx.c18_avx2_t1_crc32_wimax_avx.
-  rewrite Properties_C18_avx2_t1_ethernet_fcs_avx.c18_avx2_t1_ethernet_fcs_avx.
-  rewrite Properties_C18_avx2_t1_ghash_by8_avx2.c18_avx2_t1_ghash_by8_avx2.
-  rewrite Properties_C18_avx2_t1_mb_mgr_aes128_cbc_enc_flush_avx.c18_avx2_t1_mb_mgr_aes128_cbc_enc_flush_avx.
-  rewrite Properties_C18_avx2_t1_mb_mgr_aes128_cbc_enc_submit_avx.c18_avx2_t1_mb_mgr_aes128_cbc_enc_submit_avx.
-  rewrite Properties_C18_avx2_t1_mb_mgr_aes128_cbcs_1_9_flush_avx.c18_avx2_t1_mb_mgr_aes128_cbcs_1_9_flush_avx.
-  rewrite Properties_C18_avx2_t1_mb_mgr_aes128_cbcs_1_9_submit_avx.c18_avx2_t1_mb_mgr_aes128_cbcs_1_9_submit_avx.
-  rewrite Properties_C18_avx2_t1_mb_mgr_aes128_ccm_auth_submit_flush_x8_avx.c18_avx2_t1_mb_mgr_aes128_ccm_auth_submit_flush_x8_avx.
-  rewrite Properties_C18_avx2_t1_mb_mgr_aes128_cmac_submit_flush_x8_avx.c18_avx2_t1_mb_mgr_aes128_cmac_submit_flush_x8_avx.
-  rewrite Properties_C18_avx2_t1_mb_mgr_aes128_xcbc_flush_x8_avx.c18_avx2_t1_mb_mgr_aes128_xcbc_flush_x8_avx.
-  rewrite Properties_C18_avx2_t1_mb_mgr_aes128_xcbc_submit_x8_avx.c18_avx2_t1_mb_mgr_aes128_xcbc_submit_x8_avx.
-  rewrite Properties_C18_avx2_t1_mb_mgr_aes192_cbc_enc_flush_avx.c18_avx2_t1_mb_mgr_aes192_cbc_enc_flush_avx.
-  rewrite Properties_C18_avx2_t1_mb_mgr_aes192_cbc_enc_submit_avx.c18_avx2_t1_mb_mgr_aes192_cbc_enc_submit_avx.
-  rewrite Properties_C18_avx2_t1_mb_mgr_aes256_cbc_enc_flush_avx.c18_avx2_t1_mb_mgr_aes256_cbc_enc_flush_avx.
-  rewrite Properties_C18_avx2_t1_mb_mgr_aes256_cbc_enc_submit_avx.c18_avx2_t1_mb_mgr_aes256_cbc_enc_submit_avx.
-  rewrite Properties_C18_avx2_t1_mb_mgr_aes256_ccm_auth_submit_flush_x8_avx.c18_avx2_t1_mb_mgr_aes256_ccm_auth_submit_flush_x8_avx.
-  rewrite Properties_C18_avx2_t1_mb_mgr_aes256_cmac_submit_flush_x8_avx.c18_avx2_t1_mb_mgr_aes256_cmac_submit_flush_x8_avx.
-  rewrite Properties_C18_avx2_t1_mb_mgr_hmac_md5_flush_avx2.c18_avx2_t1_mb_mgr_hmac_md5_flush_avx2.
-  rewrite Properties_C18_avx2_t1_mb_mgr_hmac_md5_submit_avx2.c18_avx2_t1_mb_mgr_hmac_md5_submit_avx2.
-  rewrite Properties_C18_avx2_t1_mb_mgr_hmac_sha1_flush_avx2.c18_avx2_t1_mb_mgr_hmac_sha1_flush_avx2.
-  rewrite Properties_C18_avx2_t1_mb_mgr_hmac_sha1_submit_avx2.c18_avx2_t1_mb_mgr_hmac_sha1_submit_avx2.
-  rewrite Properties_C18_avx2_t1_mb_mgr_hmac_sha224_flush_avx2.c18_avx2_t1_mb_mgr_hmac_sha224_flush_avx2.
-  rewrite Properties_C18_avx2_t1_mb_mgr_hmac_sha224_submit_avx2.c18_avx2_t1_mb_mgr_hmac_sha224_submit_avx2.
-  rewrite Properties_C18_avx2_t1_mb_mgr_hmac_sha256_flush_avx2.c18_avx2_t1_mb_mgr_hmac_sha256_flush_avx2.
-  rewrite Properties_C18_avx2_t1_mb_mgr_hmac_sha256_submit_avx2.c18_avx2_t1_mb_mgr_hmac_sha256_submit_avx2.
-  rewrite Properties_C18_avx2_t1_mb_mgr_hmac_sha384_flush_avx2.c18_avx2_t1_mb_mgr_hmac_sha384_flush_avx2.
-  rewrite Properties_C18_avx2_t1_mb_mgr_hmac_sha384_submit_avx2.c18_avx2_t1_mb_mgr_hmac_sha384_submit_avx2.
-  rewrite Properties_C18_avx2_t1_mb_mgr_hmac_sha512_flush_avx2.c18_avx2_t1_mb_mgr_hmac_sha512_flush_avx2.
-  rewrite Properties_C18_avx2_t1_mb_mgr_hmac_sha512_submit_avx2.c18_avx2_t1_mb_mgr_hmac_sha512_submit_avx2.
-  rewrite Properties_C18_avx2_t1_mb_mgr_zuc_submit_flush_avx2.c18_avx2_t1_mb_mgr_zuc_submit_flush_avx2.
-  rewrite Properties_C18_avx2_t1_md5_x8x2_avx2.c18_avx2_t1_md5_x8x2_avx2.
-  rewrite Properties_C18_avx2_t1_memcpy_avx.c18_avx2_t1_memcpy_avx.
-  rewrite Properties_C18_avx2_t1_pon_by8_avx.c18_avx2_t1_pon_by8_avx.
-  rewrite Properties_C18_avx2_t1_sha1_x8_avx2.c18_avx2_t1_sha1_x8_avx2.
-  rewrite Properties_C18_avx2_t1_sha256_oct_avx2.c18_avx2_t1_sha256_oct_avx2.
-  rewrite Properties_C18_avx2_t1_sha512_x4_avx2.c18_avx2_t1_sha512_x4_avx2.
-  rewrite Properties_C18_avx2_t1_snow3g_uia2_by4_avx.c18_avx2_t1_snow3g_uia2_by4_avx.
-  rewrite Properties_C18_avx2_t1_snow_v_avx.c18_avx2_t1_snow_v_avx.
-  rewrite Properties_C18_avx2_t1_zuc_x8_avx2.c18_avx2_t1_zuc_x8_avx2.
-  rewrite Properties_C18_avx2_t2_aes128_cntr_vaes_avx2.c18_avx2_t2_aes128_cntr_vaes_avx2.
-  rewrite Properties_C18_avx2_t2_aes128_ecb_vaes_avx2.c18_avx2_t2_aes128_ecb_vaes_avx2.
-  rewrite Properties_C18_avx2_t2_aes128_gcm_vaes_avx2.c18_avx2_t2_aes128_gcm_vaes_avx2.
-  rewrite Properties_C18_avx2_t2_aes192_cntr_vaes_avx2.c18_avx2_t2_aes192_cntr_vaes_avx2.
-  rewrite Properties_C18_avx2_t2_aes192_ecb_vaes_avx2.c18_avx2_t2_aes192_ecb_vaes_avx2.
-  rewrite Properties_C18_avx2_t2_aes192_gcm_vaes_avx2.c18_avx2_t2_aes192_gcm_vaes_avx2.
-  rewrite Properties_C18_avx2_t2_aes256_cntr_vaes_avx2.c18_avx2_t2_aes256_cntr_vaes_avx2.
-  rewrite Properties_C18_avx2_t2_aes256_ecb_vaes_avx2.c18_avx2_t2_aes256_ecb_vaes_avx2.
-  rewrite Properties_C18_avx2_t2_aes256_gcm_vaes_avx2.c18_avx2_t2_aes256_gcm_vaes_avx2.
-  rewrite Properties_C18_avx2_t2_aes_cbc_dec_by16_vaes_avx2.c18_avx2_t2_aes_cbc_dec_by16_vaes_avx2.
-  rewrite Properties_C18_avx2_t2_aes_cfb_dec_by16_vaes_avx2.c18_avx2_t2_aes_cfb_dec_by16_vaes_avx2.
-  rewrite Properties_C18_avx2_t2_aes_gcm_vaes_avx2.c18_avx2_t2_aes_gcm_vaes_avx2.
-  rewrite Properties_C18_avx2_t2_ghash_vaes_avx2.c18_avx2_t2_ghash_vaes_avx2.
-  rewrite Properties_C18_avx2_t2_mb_mgr_zuc_submit_flush_gfni_avx2.c18_avx2_t2_mb_mgr_zuc_submit_flush_gfni_avx2.
-  rewrite Properties_C18_avx2_t2_zuc_x8_gfni_avx2.c18_avx2_t2_zuc_x8_gfni_avx2.
-  rewrite Properties_C18_avx2_t3_poly_fma_avx2.c18_avx2_t3_poly_fma_avx2.
-  rewrite Properties_C18_avx512_t1_aes_docsis_dec_avx512.c18_avx512_t1_aes_docsis_dec_avx512.
-  rewrite Properties_C18_avx512_t1_aes_docsis_enc_avx512.c18_avx512_t1_aes_docsis_enc_avx512.
-  rewrite Properties_C18_avx512_t1_chacha20_avx512.c18_avx512_t1_chacha20_avx512.
-  rewrite Properties_C18_avx512_t1_des_common_avx512.c18_avx512_t1_des_common_avx512.
-  rewrite Properties_C18_avx512_t1_des_x16_avx512.c18_avx512_t1_des_x16_avx512.
-  rewrite Properties_C18_avx512_t1_mb_mgr_des_avx512.c18_avx512_t1_mb_mgr_des_avx512.
-  rewrite Properties_C18_avx512_t1_mb_mgr_hmac_sha1_flush_avx512.c18_avx512_t1_mb_mgr_hmac_sha1_flush_avx512.
-  rewrite Properties_C18_avx512_t1_mb_mgr_hmac_sha1_submit_avx512.c18_avx512_t1_mb_mgr_hmac_sha1_submit_avx512.
-  rewrite Properties_C18_avx512_t1_mb_mgr_hmac_sha224_flush_avx512.c18_avx512_t1_mb_mgr_hmac_sha224_flush_avx512.
-  rewrite Properties_C18_avx512_t1_mb_mgr_hmac_sha224_submit_avx512.c18_avx512_t1_mb_mgr_hmac_sha224_submit_avx512.
-  rewrite Properties_C18_avx512_t1_mb_mgr_hmac_sha256_flush_avx512.c18_avx512_t1_mb_mgr_hmac_sha256_flush_avx512.
-  rewrite Properties_C18_avx512_t1_mb_mgr_hmac_sha256_submit_avx512.c18_avx512_t1_mb_mgr_hmac_sha256_submit_avx512.
-  rewrite Properties_C18_avx512_t1_mb_mgr_hmac_sha384_flush_avx512.c18_avx512_t1_mb_mgr_hmac_sha384_flush_avx512.
-  rewrite Properties_C18_avx512_t1_mb_mgr_hmac_sha384_submit_avx512.c18_avx512_t1_mb_mgr_hmac_sha384_submit_avx512.
-  rewrite Properties_C18_avx512_t1_mb_mgr_hmac_sha512_flush_avx512.c18_avx512_t1_mb_mgr_hmac_sha512_flush_avx512.
-  rewrite Properties_C18_avx512_t1_mb_mgr_hmac_sha512_submit_avx512.c18_avx512_t1_mb_mgr_hmac_sha512_submit_avx512.
-  rewrite Properties_C18_avx512_t1_mb_mgr_zuc_submit_flush_avx512.c18_avx512_t1_mb_mgr_zuc_submit_flush_avx512.
-  rewrite Properties_C18_avx512_t1_poly_avx512.c18_avx512_t1_poly_avx512.
-  rewrite Properties_C18_avx512_t1_sha1_x16_avx512.c18_avx512_t1_sha1_x16_avx512.
-  rewrite Properties_C18_avx512_t1_sha256_x16_avx512.c18_avx512_t1_sha256_x16_avx512.
-  rewrite Properties_C18_avx512_t1_sha512_x8_avx512.c18_avx512_t1_sha512_x8_avx512.
-  rewrite Properties_C18_avx512_t1_zuc_x16_avx512.c18_avx512_t1_zuc_x16_avx512.
-  rewrite Properties_C18_avx512_t2_aes128_gcm_api_vaes_avx512.c18_avx512_t2_aes128_gcm_api_vaes_avx512.
-  rewrite Properties_C18_avx512_t2_aes128_gcm_sgl_api_vaes_avx512.c18_avx512_t2_aes128_gcm_sgl_api_vaes_avx512.
-  rewrite Properties_C18_avx512_t2_aes192_gcm_api_vaes_avx512.c18_avx512_t2_aes192_gcm_api_vaes_avx512.
-  rewrite Properties_C18_avx512_t2_aes192_gcm_sgl_api_vaes_avx512.c18_avx512_t2_aes192_gcm_sgl_api_vaes_avx512.
-  rewrite Properties_C18_avx512_t2_aes256_gcm_api_vaes_avx512.c18_avx512_t2_aes256_gcm_api_vaes_avx512.
-  rewrite Properties_C18_avx512_t2_aes256_gcm_sgl_api_vaes_avx512.c18_avx512_t2_aes256_gcm_sgl_api_vaes_avx512.
-  rewrite Properties_C18_avx512_t2_aes_cbc_dec_by16_vaes_avx512.c18_avx512_t2_aes_cbc_dec_by16_vaes_avx512.
-  rewrite Properties_C18_avx512_t2_aes_cbc_enc_vaes_avx512.c18_avx512_t2_aes_cbc_enc_vaes_avx512.
-  rewrite Properties_C18_avx512_t2_aes_cbcs_dec_by16_vaes_avx512.c18_avx512_t2_aes_cbcs_dec_by16_vaes_avx512.
-  rewrite Properties_C18_avx512_t2_aes_cbcs_enc_vaes_avx512.c18_avx512_t2_aes_cbcs_enc_vaes_avx512.
-  rewrite Properties_C18_avx512_t2_aes_cfb_dec_by16_vaes_avx512.c18_avx512_t2_aes_cfb_dec_by16_vaes_avx512.
-  rewrite Properties_C18_avx512_t2_aes_cfb_enc_vaes_avx512.c18_avx512_t2_aes_cfb_enc_vaes_avx512.
-  rewrite Properties_C18_avx512_t2_aes_cntr_api_by16_vaes_avx512.c18_avx512_t2_aes_cntr_api_by16_vaes_avx512.
-  rewrite Properties_C18_avx512_t2_aes_cntr_bit_api_by16_vaes_avx512.c18_avx512_t2_aes_cntr_bit_api_by16_vaes_avx512.
-  rewrite Properties_C18_avx512_t2_aes_cntr_ccm_api_by16_vaes_avx512.c18_avx512_t2_aes_cntr_ccm_api_by16_vaes_avx512.
-  rewrite Properties_C18_avx512_t2_aes_cntr_pon_api_by16_vaes_avx512.c18_avx512_t2_aes_cntr_pon_api_by16_vaes_avx512.
-  rewrite Properties_C18_avx512_t2_aes_docsis_dec_vaes_avx512.c18_avx512_t2_aes_docsis_dec_vaes_avx512.
-  rewrite Properties_C18_avx512_t2_aes_docsis_enc_vaes_avx512.c18_avx512_t2_aes_docsis_enc_vaes_avx512.
-  rewrite Properties_C18_avx512_t2_aes_ecb_quic_vaes_avx512.c18_avx512_t2_aes_ecb_quic_vaes_avx512.
-  rewrite Properties_C18_avx512_t2_aes_ecb_vaes_avx512.c18_avx512_t2_aes_ecb_vaes_avx512.
-  rewrite Properties_C18_avx512_t2_crc16_x25_avx512.c18_avx512_t2_crc16_x25_avx512.
-  rewrite Properties_C18_avx512_t2_crc32_by16_vclmul_avx512.c18_avx512_t2_crc32_by16_vclmul_avx512.
-  rewrite Properties_C18_avx512_t2_crc32_fp_avx512.c18_avx512_t2_crc32_fp_avx512.
-  rewrite Properties_C18_avx512_t2_crc32_iuup_avx512.c18_avx512_t2_crc32_iuup_avx512.
-  rewrite Properties_C18_avx512_t2_crc32_lte_avx512.c18_avx512_t2_crc32_lte_avx512.
-  rewrite Properties_C18_avx512_t2_crc32_refl_by16_vclmul_avx512.c18_avx512_t2_crc32_refl_by16_vclmul_avx512.
-  rewrite Properties_C18_avx512_t2_crc32_sctp_avx512.c18_avx512_t2_crc32_sctp_avx512.
-  rewrite Properties_C18_avx512_t2_crc32_wimax_avx512.c18_avx512_t2_crc32_wimax_avx512.
-  rewrite Properties_C18_avx512_t2_ethernet_fcs_avx512.c18_avx512_t2_ethernet_fcs_avx512.
-  rewrite Properties_C18_avx512_t2_ghash_api_vaes_avx512.c18_avx512_t2_ghash_api_vaes_avx512.
-  rewrite Properties_C18_avx512_t2_gmac_api_vaes_avx512.c18_avx512_t2_gmac_api_vaes_avx512.
-  rewrite Properties_C18_avx512_t2_mb_mgr_aes128_cbc_enc_flush_avx512.c18_avx512_t2_mb_mgr_aes128_cbc_enc_flush_avx512.
-  rewrite Properties_C18_avx512_t2_mb_mgr_aes128_cbc_enc_submit_avx512.c18_avx512_t2_mb_mgr_aes128_cbc_enc_submit_avx512.
-  rewrite Properties_C18_avx512_t2_mb_mgr_aes128_cbcs_1_9_flush_avx512.c18_avx512_t2_mb_mgr_aes128_cbcs_1_9_flush_avx512.
-  rewrite Properties_C18_avx512_t2_mb_mgr_aes128_cbcs_1_9_submit_avx512.c18_avx512_t2_mb_mgr_aes128_cbcs_1_9_submit_avx512.
-  rewrite Properties_C18_avx512_t2_mb_mgr_aes128_ccm_auth_submit_flush_x16_vaes_avx512.c18_avx512_t2_mb_mgr_aes128_ccm_auth_submit_flush_x16_vaes_avx512.
-  rewrite Properties_C18_avx512_t2_mb_mgr_aes128_cfb_enc_flush_vaes_avx512.c18_avx512_t2_mb_mgr_aes128_cfb_enc_flush_vaes_avx512.
-  rewrite Properties_C18_avx512_t2_mb_mgr_aes128_cfb_enc_submit_vaes_avx512.c18_avx512_t2_mb_mgr_aes128_cfb_enc_submit_vaes_avx512.
-  rewrite Properties_C18_avx512_t2_mb_mgr_aes128_cmac_submit_flush_x16_vaes_avx512.c18_avx512_t2_mb_mgr_aes128_cmac_submit_flush_x16_vaes_avx512.
-  rewrite Properties_C18_avx512_t2_mb_mgr_aes128_xcbc_submit_flush_x16_vaes_avx512.c18_avx512_t2_mb_mgr_aes128_xcbc_submit_flush_x16_vaes_avx512.
-  rewrite Properties_C18_avx512_t2_mb_mgr_aes192_cbc_enc_flush_avx512.c18_avx512_t2_mb_mgr_aes192_cbc_enc_flush_avx512.
-  rewrite Properties_C18_avx512_t2_mb_mgr_aes192_cbc_enc_submit_avx512.c18_avx512_t2_mb_mgr_aes192_cbc_enc_submit_avx512.
-  rewrite Properties_C18_avx512_t2_mb_mgr_aes192_cfb_enc_flush_vaes_avx512.c18_avx512_t2_mb_mgr_aes192_cfb_enc_flush_vaes_avx512.
-  rewrite Properties_C18_avx512_t2_mb_mgr_aes192_cfb_enc_submit_vaes_avx512.c18_avx512_t2_mb_mgr_aes192_cfb_enc_submit_vaes_avx512.
-  rewrite Properties_C18_avx512_t2_mb_mgr_aes256_cbc_enc_flush_avx512.c18_avx512_t2_mb_mgr_aes256_cbc_enc_flush_avx512.
-  rewrite Properties_C18_avx512_t2_mb_mgr_aes256_cbc_enc_submit_avx512.c18_avx512_t2_mb_mgr_aes256_cbc_enc_submit_avx512.
-  rewrite Properties_C18_avx512_t2_mb_mgr_aes256_ccm_auth_submit_flush_x16_vaes_avx512.c18_avx512_t2_mb_mgr_aes256_ccm_auth_submit_flush_x16_vaes_avx512.
-  rewrite Properties_C18_avx512_t2_mb_mgr_aes256_cfb_enc_flush_vaes_avx512.c18_avx512_t2_mb_mgr_aes256_cfb_enc_flush_vaes_avx512.
-  rewrite Properties_C18_avx512_t2_mb_mgr_aes256_cfb_enc_submit_vaes_avx512.c18_avx512_t2_mb_mgr_aes256_cfb_enc_submit_vaes_avx512.
-  rewrite Properties_C18_avx512_t2_mb_mgr_aes256_cmac_submit_flush_x16_vaes_avx512.c18_avx512_t2_mb_mgr_aes256_cmac_submit_flush_x16_vaes_avx512.
-  rewrite Properties_C18_avx512_t2_mb_mgr_snow3g_uea2_submit_flush_vaes_avx512.c18_avx512_t2_mb_mgr_snow3g_uea2_submit_flush_vaes_avx512.
-  rewrite Properties_C18_avx512_t2_mb_mgr_snow3g_uia2_submit_flush_vaes_avx512.c18_avx512_t2_mb_mgr_snow3g_uia2_submit_flush_vaes_avx512.
-  rewrite Properties_C18_avx512_t2_mb_mgr_zuc_submit_flush_gfni_avx512.c18_avx512_t2_mb_mgr_zuc_submit_flush_gfni_avx512.
-  rewrite Properties_C18_avx512_t2_poly_fma_avx512.c18_avx512_t2_poly_fma_avx512.
-  rewrite Properties_C18_avx512_t2_pon_vaes_avx512.c18_avx512_t2_pon_vaes_avx512.
-  rewrite Properties_C18_avx512_t2_snow3g_uia2_by32_vaes_avx512.c18_avx512_t2_snow3g_uia2_by32_vaes_avx512.
-  rewrite Properties_C18_avx512_t2_zuc_x16_vaes_avx512.c18_avx512_t2_zuc_x16_vaes_avx512.
-  rewrite Properties_C18_sse_t1_aes128_cbc_dec_by8_sse.c18_sse_t1_aes128_cbc_dec_by8_sse.
-  rewrite Properties_C18_sse_t1_aes128_cbc_enc_x8_sse.c18_sse_t1_aes128_cbc_enc_x8_sse.
-  rewrite Properties_C18_sse_t1_aes128_cbc_mac_x8_sse.c18_sse_t1_aes128_cbc_mac_x8_sse.
-  rewrite Properties_C18_sse_t1_aes128_cbcs_1_9_dec_by4_sse.c18_sse_t1_aes128_cbcs_1_9_dec_by4_sse.
-  rewrite Properties_C18_sse_t1_aes128_cbcs_1_9_enc_x4_sse.c18_sse_t1_aes128_cbcs_1_9_enc_x4_sse.
-  rewrite Properties_C18_sse_t1_aes128_cntr_by8_sse.c18_sse_t1_aes128_cntr_by8_sse.
-  rewrite Properties_C18_sse_t1_aes128_cntr_ccm_by8_sse.c18_sse_t1_aes128_cntr_ccm_by8_sse.
-  rewrite Properties_C18_sse_t1_aes128_ecb_by8_sse.c18_sse_t1_aes128_ecb_by8_sse.
-  rewrite Properties_C18_sse_t1_aes128_xcbc_mac_x4_sse.c18_sse_t1_aes128_xcbc_mac_x4_sse.
-  rewrite Properties_C18_sse_t1_aes192_cbc_dec_by8_sse.c18_sse_t1_aes192_cbc_dec_by8_sse.
-  rewrite Properties_C18_sse_t1_aes192_cbc_enc_x8_sse.c18_sse_t1_aes192_cbc_enc_x8_sse.
-  rewrite Properties_C18_sse_t1_aes192_cntr_by8_sse.c18_sse_t1_aes192_cntr_by8_sse.
-  rewrite Properties_C18_sse_t1_aes192_ecb_by8_sse.c18_sse_t1_aes192_ecb_by8_sse.
-  rewrite Properties_C18_sse_t1_aes256_cbc_dec_by8_sse.c18_sse_t1_aes256_cbc_dec_by8_sse.
-  rewrite Properties_C18_sse_t1_aes256_cbc_enc_x8_sse.c18_sse_t1_aes256_cbc_enc_x8_sse.
-  rewrite Properties_C18_sse_t1_aes256_cbc_mac_x8_sse.c18_sse_t1_aes256_cbc_mac_x8_sse.
-  rewrite Properties_C18_sse_t1_aes256_cntr_by8_sse.c18_sse_t1_aes256_cntr_by8_sse.
-  rewrite Properties_C18_sse_t1_aes256_cntr_ccm_by8_sse.c18_sse_t1_aes256_cntr_ccm_by8_sse.
-  rewrite Properties_C18_sse_t1_aes256_ecb_by8_sse.c18_sse_t1_aes256_ecb_by8_sse.
-  rewrite Properties_C18_sse_t1_aes_cfb_enc_dec_x1_sse.c18_sse_t1_aes_cfb_enc_dec_x1_sse.
-  rewrite Properties_C18_sse_t1_aes_cfb_sse.c18_sse_t1_aes_cfb_sse.
-  rewrite Properties_C18_sse_t1_aes_ecb_quic_x8_sse.c18_sse_t1_aes_ecb_quic_x8_sse.
-  rewrite Properties_C18_sse_t1_chacha20_sse.c18_sse_t1_chacha20_sse.
-  rewrite Properties_C18_sse_t1_crc16_x25_sse.c18_sse_t1_crc16_x25_sse.
-  rewrite Properties_C18_sse_t1_crc32_by8_sse.c18_sse_t1_crc32_by8_sse.
-  rewrite Properties_C18_sse_t1_crc32_fp_sse.c18_sse_t1_crc32_fp_sse.
-  rewrite Properties_C18_sse_t1_crc32_iuup_sse.c18_sse_t1_crc32_iuup_sse.
-  rewrite Properties_C18_sse_t1_crc32_lte_sse.c18_sse_t1_crc32_lte_sse.
-  rewrite Properties_C18_sse_t1_crc32_refl_by8_sse.c18_sse_t1_crc32_refl_by8_sse.
-  rewrite Properties_C18_sse_t1_crc32_sctp_sse.c18_sse_t1_crc32_sctp_sse.
-  rewrite Properties_C18_sse_t1_crc32_wimax_sse.c18_sse_t1_crc32_wimax_sse.
-  rewrite Properties_C18_sse_t1_ethernet_fcs_sse.c18_sse_t1_ethernet_fcs_sse.
-  rewrite Properties_C18_sse_t1_gcm128_api_by8_sse.c18_sse_t1_gcm128_api_by8_sse.
-  rewrite Properties_C18_sse_t1_gcm128_gmac_api_by8_sse.c18_sse_t1_gcm128_gmac_api_by8_sse.
-  rewrite Properties_C18_sse_t1_gcm128_sgl_api_by8_sse.c18_sse_t1_gcm128_sgl_api_by8_sse.
-  rewrite Properties_C18_sse_t1_gcm192_api_by8_sse.c18_sse_t1_gcm192_api_by8_sse.
-  rewrite Properties_C18_sse_t1_gcm192_gmac_api_by8_sse.c18_sse_t1_gcm192_gmac_api_by8_sse.
-  rewrite Properties_C18_sse_t1_gcm192_sgl_api_by8_sse.c18_sse_t1_gcm192_sgl_api_by8_sse.
-  rewrite Properties_C18_sse_t1_gcm256_api_by8_sse.c18_sse_t1_gcm256_api_by8_sse.
-  rewrite Properties_C18_sse_t1_gcm256_gmac_api_by8_sse.c18_sse_t1_gcm256_gmac_api_by8_sse.
-  rewrite Properties_C18_sse_t1_gcm256_sgl_api_by8_sse.c18_sse_t1_gcm256_sgl_api_by8_sse.
-  rewrite Properties_C18_sse_t1_mb_mgr_aes128_cbc_enc_flush_x8_sse.c18_sse_t1_mb_mgr_aes128_cbc_enc_flush_x8_sse.
-  rewrite Properties_C18_sse_t1_mb_mgr_aes128_cbc_enc_submit_x8_sse.c18_sse_t1_mb_mgr_aes128_cbc_enc_submit_x8_sse.
-  rewrite Properties_C18_sse_t1_mb_mgr_aes128_cbcs_1_9_flush_sse.c18_sse_t1_mb_mgr_aes128_cbcs_1_9_flush_sse.
-  rewrite Properties_C18_sse_t1_mb_mgr_aes128_cbcs_1_9_submit_sse.c18_sse_t1_mb_mgr_aes128_cbcs_1_9_submit_sse.
-  rewrite Properties_C18_sse_t1_mb_mgr_aes128_xcbc_flush_x4_sse.c18_sse_t1_mb_mgr_aes128_xcbc_flush_x4_sse.
-  rewrite Properties_C18_sse_t1_mb_mgr_aes128_xcbc_submit_x4_sse.c18_sse_t1_mb_mgr_aes128_xcbc_submit_x4_sse.
-  rewrite Properties_C18_sse_t1_mb_mgr_aes192_cbc_enc_flush_x8_sse.c18_sse_t1_mb_mgr_aes192_cbc_enc_flush_x8_sse.
-  rewrite Properties_C18_sse_t1_mb_mgr_aes192_cbc_enc_submit_x8_sse.c18_sse_t1_mb_mgr_aes192_cbc_enc_submit_x8_sse.
-  rewrite Properties_C18_sse_t1_mb_mgr_aes256_cbc_enc_flush_x8_sse.c18_sse_t1_mb_mgr_aes256_cbc_enc_flush_x8_sse.
-  rewrite Properties_C18_sse_t1_mb_mgr_aes256_cbc_enc_submit_x8_sse.c18_sse_t1_mb_mgr_aes256_cbc_enc_submit_x8_sse.
-  rewrite Properties_C18_sse_t1_mb_mgr_aes_ccm_auth_submit_flush_x8_sse.c18_sse_t1_mb_mgr_aes_ccm_auth_submit_flush_x8_sse.
-  rewrite Properties_C18_sse_t1_mb_mgr_aes_cmac_submit_flush_x8_sse.c18_sse_t1_mb_mgr_aes_cmac_submit_flush_x8_sse.
-  rewrite Properties_C18_sse_t1_mb_mgr_hmac_md5_flush_sse.c18_sse_t1_mb_mgr_hmac_md5_flush_sse.
-  rewrite Properties_C18_sse_t1_mb_mgr_hmac_md5_submit_sse.c18_sse_t1_mb_mgr_hmac_md5_submit_sse.
-  rewrite Properties_C18_sse_t1_mb_mgr_hmac_sha1_flush_sse.c18_sse_t1_mb_mgr_hmac_sha1_flush_sse.
-  rewrite Properties_C18_sse_t1_mb_mgr_hmac_sha1_submit_sse.c18_sse_t1_mb_mgr_hmac_sha1_submit_sse.
-  rewrite Properties_C18_sse_t1_mb_mgr_hmac_sha224_flush_sse.c18_sse_t1_mb_mgr_hmac_sha224_flush_sse.
-  rewrite Properties_C18_sse_t1_mb_mgr_hmac_sha224_submit_sse.c18_sse_t1_mb_mgr_hmac_sha224_submit_sse.
-  rewrite Properties_C18_sse_t1_mb_mgr_hmac_sha256_flush_sse.c18_sse_t1_mb_mgr_hmac_sha256_flush_sse.
-  rewrite Properties_C18_sse_t1_mb_mgr_hmac_sha256_submit_sse.c18_sse_t1_mb_mgr_hmac_sha256_submit_sse.
-  rewrite Properties_C18_sse_t1_mb_mgr_hmac_sha384_flush_sse.c18_sse_t1_mb_mgr_hmac_sha384_flush_sse.
-  rewrite Properties_C18_sse_t1_mb_mgr_hmac_sha384_submit_sse.c18_sse_t1_mb_mgr_hmac_sha384_submit_sse.
-  rewrite Properties_C18_sse_t1_mb_mgr_hmac_sha512_flush_sse.c18_sse_t1_mb_mgr_hmac_sha512_flush_sse.
-  rewrite Properties_C18_sse_t1_mb_mgr_hmac_sha512_submit_sse.c18_sse_t1_mb_mgr_hmac_sha512_submit_sse.
-  rewrite Properties_C18_sse_t1_mb_mgr_snow3g_uea2_submit_flush_x4_sse.c18_sse_t1_mb_mgr_snow3g_uea2_submit_flush_x4_sse.
-  rewrite Properties_C18_sse_t1_mb_mgr_snow3g_uia2_submit_flush_x4_sse.c18_sse_t1_mb_mgr_snow3g_uia2_submit_flush_x4_sse.
-  rewrite Properties_C18_sse_t1_mb_mgr_zuc_submit_flush_sse.c18_sse_t1_mb_mgr_zuc_submit_flush_sse.
-  rewrite Properties_C18_sse_t1_md5_x4x2_sse.c18_sse_t1_md5_x4x2_sse.
-  rewrite Properties_C18_sse_t1_memcpy_sse.c18_sse_t1_memcpy_sse.
-  rewrite Properties_C18_sse_t1_pon_by8_sse.c18_sse_t1_pon_by8_sse.
-  rewrite Properties_C18_sse_t1_sha1_one_block_sse.c18_sse_t1_sha1_one_block_sse.
-  rewrite Properties_C18_sse_t1_sha1_x4_sse.c18_sse_t1_sha1_x4_sse.
-  rewrite Properties_C18_sse_t1_sha224_one_block_sse.c18_sse_t1_sha224_one_block_sse.
-  rewrite Properties_C18_sse_t1_sha256_mult_sse.c18_sse_t1_sha256_mult_sse.
-  rewrite Properties_C18_sse_t1_sha256_one_block_sse.c18_sse_t1_sha256_one_block_sse.
-  rewrite Properties_C18_sse_t1_sha384_one_block_sse.c18_sse_t1_sha384_one_block_sse.
-  rewrite Properties_C18_sse_t1_sha512_one_block_sse.c18_sse_t1_sha512_one_block_sse.
-  rewrite Properties_C18_sse_t1_sha512_x2_sse.c18_sse_t1_sha512_x2_sse.
-  rewrite Properties_C18_sse_t1_sm3_base_hmac_sse.c18_sse_t1_sm3_base_hmac_sse.
-  rewrite Properties_C18_sse_t1_sm3_base_init_sse.c18_sse_t1_sm3_base_init_sse.
-  rewrite Properties_C18_sse_t1_sm3_base_msg_sse.c18_sse_t1_sm3_base_msg_sse.
-  rewrite Properties_C18_sse_t1_sm3_base_one_block_sse.c18_sse_t1_sm3_base_one_block_sse.
-  rewrite Properties_C18_sse_t1_sm3_base_update_sse.c18_sse_t1_sm3_base_update_sse.
-  rewrite Properties_C18_sse_t1_sm4_sse.c18_sse_t1_sm4_sse.
-  rewrite Properties_C18_sse_t1_snow3g_uia2_by4_sse.c18_sse_t1_snow3g_uia2_by4_sse.
-  rewrite Properties_C18_sse_t1_snow_v_sse.c18_sse_t1_snow_v_sse.
-  rewrite Properties_C18_sse_t1_zuc_x4_sse.c18_sse_t1_zuc_x4_sse.
-  rewrite Properties_C18_sse_t2_mb_mgr_hmac_sha1_flush_ni_sse.c18_sse_t2_mb_mgr_hmac_sha1_flush_ni_sse.
-  rewrite Properties_C18_sse_t2_mb_mgr_hmac_sha1_submit_ni_sse.c18_sse_t2_mb_mgr_hmac_sha1_submit_ni_sse.
-  rewrite Properties_C18_sse_t2_mb_mgr_hmac_sha224_flush_ni_sse.c18_sse_t2_mb_mgr_hmac_sha224_flush_ni_sse.
-  rewrite Properties_C18_sse_t2_mb_mgr_hmac_sha224_submit_ni_sse.c18_sse_t2_mb_mgr_hmac_sha224_submit_ni_sse.
-  rewrite Properties_C18_sse_t2_mb_mgr_hmac_sha256_flush_ni_sse.c18_sse_t2_mb_mgr_hmac_sha256_flush_ni_sse.
-  rewrite Properties_C18_sse_t2_mb_mgr_hmac_sha256_submit_ni_sse.c18_sse_t2_mb_mgr_hmac_sha256_submit_ni_sse.
-  rewrite Properties_C18_sse_t2_sha1_ni_one_block_sse.c18_sse_t2_sha1_ni_one_block_sse.
-  rewrite Properties_C18_sse_t2_sha1_ni_x1_sse.c18_sse_t2_sha1_ni_x1_sse.
-  rewrite Properties_C18_sse_t2_sha1_ni_x2_sse.c18_sse_t2_sha1_ni_x2_sse.
-  rewrite Properties_C18_sse_t2_sha256_ni_one_block_sse.c18_sse_t2_sha256_ni_one_block_sse.
-  rewrite Properties_C18_sse_t2_sha256_ni_x1_sse.c18_sse_t2_sha256_ni_x1_sse.
-  rewrite Properties_C18_sse_t2_sha256_ni_x2_sse.c18_sse_t2_sha256_ni_x2_sse.
-  rewrite Properties_C18_sse_t3_mb_mgr_zuc_submit_flush_gfni_sse.c18_sse_t3_mb_mgr_zuc_submit_flush_gfni_sse.
-  rewrite Properties_C18_sse_t3_zuc_x4_gfni_sse.c18_sse_t3_zuc_x4_gfni_sse.
-  rewrite Properties_C18_x86_64_aes128_ecbenc_x3.c18_x86_64_aes128_ecbenc_x3.
-  rewrite Properties_C18_x86_64_aes_cmac_subkey_gen.c18_x86_64_aes_cmac_subkey_gen.
-  rewrite Properties_C18_x86_64_aes_keyexp_128.c18_x86_64_aes_keyexp_128.
-  rewrite Properties_C18_x86_64_aes_keyexp_192.c18_x86_64_aes_keyexp_192.
-  rewrite Properties_C18_x86_64_aes_keyexp_256.c18_x86_64_aes_keyexp_256.
-  rewrite Properties_C18_x86_64_atomic.c18_x86_64_atomic.
-  rewrite Properties_C18_x86_64_clear_regs_mem_fns.c18_x86_64_clear_regs_mem_fns.
-  rewrite Properties_C18_x86_64_constant_lookup_fns.c18_x86_64_constant_lookup_fns.
-  rewrite Properties_C18_x86_64_mbcpuid.c18_x86_64_mbcpuid.
-  rewrite Properties_C18_x86_64_poly1305.c18_x86_64_poly1305.
-  rewrite Properties_C18_x86_64_save_xmms.c18_x86_64_save_xmms.
-  rewrite Properties_C18_x86_64_wireless_common.c18_x86_64_wireless_common.
-  rewrite Properties_C18_x86_64_zuc_common.c18_x86_64_zuc_common.
-  reflexivity.
-Qed.
-Print Assumptions c18_all_checked.
-
-(** the summaries assumed at call sites are implied by the summaries the callees were validated against *)
-Theorem c18_link : forallb (link_ok all_defs) all_defs = true.
-Proof. vm_compute. reflexivity. Qed.
-Print Assumptions c18_link.
-
-Theorem c18_prog_ok : prog_ok all_defs = true.
-Proof. unfold prog_ok. rewrite c18_all_checked, c18_link. reflexivity. Qed.
-
-(** the property *)
-Theorem c18_calling_convention :
-  forall d, In d all_defs -> d_creach d = true ->
-  forall c r, cdf c = false -> exec (code_of all_defs) (d_fn d) c r ->
+(** For functions flagged callable-from-C the summary is (at least) the System V one:
+    rbx, rbp, r12-r15 and MXCSR preserved. *)
+Theorem c18_frame_check_sysv :
+  forall P : list fdef, prog_ok P = true ->
+  forall d, In d P -> d_creach d = true ->
+  forall c r, cdf c = false -> exec (code_of P) (d_fn d) c r ->
   post (cr c) (cm c) (cmx c) sysv (fst r) (snd r).
-Proof. exact (frame_check_sysv all_defs c18_prog_ok). Qed.
-Print Assumptions c18_calling_convention.
+Proof. exact frame_check_sysv. Qed.
+Print Assumptions c18_frame_check_sysv.
